@@ -39,14 +39,14 @@ inductive SErr
 deriving Repr, DecidableEq
 
 /-- step 1: the sequence number of a request whose option decodes, whose KID context and KID are
-acceptable and which carries a Partial IV — the point at which the replay window is consulted -/
+acceptable (the KID present: this is a request) and which carries a Partial IV — the point at which the replay window is consulted -/
 def requestSeqno (B : Ctx) (o : Msg) : Option Nat :=
   match findOpt 9 o.opts with
   | none => none
   | some option =>
     match uncompress option with
     | none => none
-    | some u => if !idsAcceptable B u then none else u.piv.map beToNat
+    | some u => if !idsAcceptable B false u then none else u.piv.map beToNat
 
 /-- `strike_out` on the live window -/
 def RState.strike (st : RState) (n : Nat) : RState :=
